@@ -316,7 +316,7 @@ class Hist:
         r = self.r; c = self.c
         i = r.below(len(c.boards)); B = c.boards[i]
         if i in self.where and r.chance(1, 2):
-            a = self.where.pop(i)
+            a = self.where.pop(i); self.lost_addrs = getattr(self, "lost_addrs", []) + [list(a)]
             if B["uid"][0] & 0x80:
                 for j in list(self.where):
                     if self.where[j][:len(a)] == a: self.where.pop(j)
@@ -333,6 +333,9 @@ class Hist:
                 return ("msg", a[:k - 1], T["NODE_LOST"], [r.below(256), a[k - 1]] + uid)
             return ("msg", [], r.choice([T["NODE_NEW"], T["NODE_LOST"]]), [1, r.choice([1, 2, 5])] + uid)
         a = r.choice(NODE_ADDRS + [[5], [6, 1]])
+        # address reuse: another board logs in where a lost board (which keeps its stored address) used to be
+        la = [x for x in getattr(self, "lost_addrs", []) if x not in self.where.values()]
+        if la and r.chance(1, 2): a = list(r.choice(la))
         self.where[i] = a
         for j in list(self.where):
             if j != i and self.where[j] == a and j > i: pass          # two boards at one address: the first in board order wins
